@@ -183,3 +183,33 @@ theorem finish_ids (s : St) : ((finish s).flattened.map (·.id)).Perm (List.rang
   rw [renumber_ids, hl, renumber_length, List.range_eq_range']
 
 end JsonV.Lemmas.Fields
+
+namespace JsonV.Lemmas.Fields
+open JsonV JsonV.Model JsonV.Model.Fields JsonV.Spec.FieldRule
+
+theorem indexLe_iff : ∀ a b : List Nat, indexLe a b = true ↔ IndexLe a b
+  | [], b => by simp [indexLe, IndexLe.nil]
+  | _ :: _, [] => by
+    simp only [indexLe, Bool.false_eq_true, false_iff]
+    intro h; cases h
+  | x :: a, y :: b => by
+    simp only [indexLe, Bool.or_eq_true, decide_eq_true_eq, Bool.and_eq_true, beq_iff_eq]
+    constructor
+    · rintro (h | ⟨rfl, h⟩)
+      · exact IndexLe.lt _ _ h
+      · exact IndexLe.eq _ ((indexLe_iff a b).mp h)
+    · intro h
+      cases h with
+      | lt _ _ h => exact Or.inl h
+      | eq _ h => exact Or.inr ⟨rfl, (indexLe_iff a b).mpr h⟩
+
+theorem kept_sorted_perm (s : St) :
+    ∃ byId : List RField, byId.Perm (kept s) ∧ byId.Pairwise (fun a b => a.id ≤ b.id) ∧
+      (finish s).flattened.Perm (renumber 0 byId) := by
+  refine ⟨(kept s).mergeSort (fun x y => decide (x.id ≤ y.id)), List.mergeSort_perm _ _, ?_, finish_perm s⟩
+  have h := List.pairwise_mergeSort (le := fun x y : RField => decide (x.id ≤ y.id))
+    (fun a b c h1 h2 => by simp only [decide_eq_true_eq] at *; omega)
+    (fun a b => by simp only [Bool.or_eq_true, decide_eq_true_eq]; omega) (kept s)
+  exact h.imp (fun hab => by simpa using hab)
+
+end JsonV.Lemmas.Fields
